@@ -52,8 +52,13 @@ const DEADLINE: Duration = Duration::from_secs(40);
 const WATCHDOG: Duration = Duration::from_secs(90);
 const PANIC_MARK: u64 = u64::MAX;
 
+/// tokens are unique over the whole process, so that events of an earlier case's leftover jobs
+/// (cancelled tasks keep running in their pool) are never taken for jobs of this one
+static TOKEN_BASE: AtomicU64 = AtomicU64::new(1000);
+
 struct JobRec {
     tok: u64,
+    gtok: u64,
     path: u64,
     owner: AtomicU64,
     panics: bool,
@@ -66,6 +71,8 @@ struct JobRec {
 struct Gauge {
     cur: AtomicUsize,
     max: AtomicUsize,
+    started: AtomicUsize,
+    finished: AtomicUsize,
 }
 
 struct Parker(std::thread::Thread);
@@ -94,15 +101,17 @@ fn block_on_until<F: Future>(f: F, deadline: Instant) -> Option<F::Output> {
 
 fn body(rec: Arc<JobRec>, gauge: Arc<Gauge>) -> impl FnOnce() -> u64 + Send + 'static {
     move || {
-        verif::emit(H_JSTART, rec.tok, 0);
+        verif::emit(H_JSTART, rec.gtok, 0);
         rec.runs.fetch_add(1, SeqCst);
+        gauge.started.fetch_add(1, SeqCst);
         let n = gauge.cur.fetch_add(1, SeqCst) + 1;
         gauge.max.fetch_max(n, SeqCst);
         std::thread::sleep(rec.dur);
         gauge.cur.fetch_sub(1, SeqCst);
+        gauge.finished.fetch_add(1, SeqCst);
         if rec.path == 1 {
-            verif::emit(H_JEND, rec.tok, 0);
-            verif::emit(H_WOKEN, rec.tok, 0);
+            verif::emit(H_JEND, rec.gtok, 0);
+            verif::emit(H_WOKEN, rec.gtok, 0);
         }
         if rec.panics {
             panic!("scripted panic of a blocking job");
@@ -145,12 +154,14 @@ fn run_case(
     s_n: u64,
     specs: Vec<(u64, u64, bool)>,
 ) -> Result<CaseOut, BadCase> {
+    let base = TOKEN_BASE.fetch_add(1000, SeqCst);
     let jobs: Vec<Arc<JobRec>> = specs
         .iter()
         .enumerate()
         .map(|(i, &(path, dur_us, panics))| {
             Arc::new(JobRec {
                 tok: i as u64,
+                gtok: base + i as u64,
                 path,
                 owner: AtomicU64::new(99),
                 panics,
@@ -185,17 +196,17 @@ fn run_case(
                 for rec in mine {
                     let d = w_n + s;
                     rec.owner.store(d, SeqCst);
-                    verif::emit(H_CALL, rec.tok, d as i64);
+                    verif::emit(H_CALL, rec.gtok, d as i64);
                     let mut f = body(rec.clone(), gauge.clone());
                     loop {
                         match disp.dispatch_blocking(f) {
                             Ok(rx) => {
-                                verif::emit(H_RET, rec.tok, 1);
+                                verif::emit(H_RET, rec.gtok, 1);
                                 rxs.lock().unwrap().push((rec.tok as usize, rx));
                                 break;
                             }
                             Err(e) => {
-                                verif::emit(H_RET, rec.tok, 0);
+                                verif::emit(H_RET, rec.gtok, 0);
                                 f = e.0;
                                 if Instant::now() > deadline {
                                     break;
@@ -263,13 +274,35 @@ fn run_case(
             let _ = verif::take();
         }
     }
+    // leave nothing behind for the next case: jobs of cancelled tasks may still be running in the pool
+    let t0 = Instant::now();
+    let mut calm = 0;
+    while calm < 3 && t0.elapsed() < Duration::from_secs(10) {
+        std::thread::sleep(Duration::from_millis(5));
+        calm = if gauge.started.load(SeqCst) == gauge.finished.load(SeqCst) { calm + 1 } else { 0 };
+    }
     Ok(CaseOut { jobs, events, max_gauge: gauge.max.load(SeqCst) as u64, join })
 }
 
 /// raw log -> model events (same encoding as harness/rt/src/bin/c17.rs); jobs of path 0 are
 /// identified by the BLOCKING_* hooks of the runtime's driver, jobs of path 1 by harness events
 fn model_events(c: &CaseOut) -> (Vec<[u64; 3]>, Vec<usize>, u64) {
-    let ev = &c.events;
+    // harness events carry process-wide tokens: keep only this case's, as job indices
+    let base = c.jobs.first().map(|j| j.gtok).unwrap_or(0);
+    let own = |a: u64| a >= base && a < base + c.jobs.len() as u64;
+    let ev: Vec<verif::Event> = c
+        .events
+        .iter()
+        .filter(|e| !(H_CALL..=H_WOKEN).contains(&e.kind) || own(e.a))
+        .map(|e| {
+            let mut e = *e;
+            if (H_CALL..=H_WOKEN).contains(&e.kind) {
+                e.a -= base;
+            }
+            e
+        })
+        .collect();
+    let ev = &ev;
     let n = ev.len();
     let path0 = |tok: u64| c.jobs.get(tok as usize).is_some_and(|j| j.path == 0);
     let mut bind: Vec<Option<u64>> = vec![None; n];
@@ -302,6 +335,7 @@ fn model_events(c: &CaseOut) -> (Vec<[u64; 3]>, Vec<usize>, u64) {
     let mut sent: HashMap<u64, u64> = HashMap::new();
     let mut pending_ret: HashMap<u64, u64> = HashMap::new();
     let mut next_rt = 0u64;
+    let mut pending_spawns = 0u64;
     const NOBODY: u64 = 99;
     for (i, e) in ev.iter().enumerate() {
         match e.kind {
@@ -337,10 +371,17 @@ fn model_events(c: &CaseOut) -> (Vec<[u64; 3]>, Vec<usize>, u64) {
             }
             K_POOL_RESERVE => {
                 if let Some(&d) = th_d.get(&e.thread) {
+                    pending_spawns += (e.b == 1) as u64;
                     out.push([if e.b == 1 { 5 } else { 6 }, d, e.a]);
                 }
             }
             K_WORKER_START => {
+                // a pool thread of an earlier case's dispatcher that starts late (cancelled tasks of a
+                // join-at-once case keep running in their own pool) has no reservation in this history
+                if pending_spawns == 0 {
+                    continue;
+                }
+                pending_spawns -= 1;
                 let t = th_w.len() as u64;
                 th_w.insert(e.thread, t);
                 out.push([7, t, 0]);
@@ -358,7 +399,9 @@ fn model_events(c: &CaseOut) -> (Vec<[u64; 3]>, Vec<usize>, u64) {
             }
             H_JEND => {
                 let t = th_w.get(&e.thread).copied().unwrap_or(NOBODY);
-                out.push([9, t, jid.get(&e.a).copied().unwrap_or(NOBODY)]);
+                let j = jid.get(&e.a).copied().unwrap_or(NOBODY);
+                sent.insert(e.thread, j);
+                out.push([9, t, j]);
             }
             K_BLOCKING_END => {
                 let Some(j) = cur.remove(&e.thread) else { continue };
@@ -372,8 +415,9 @@ fn model_events(c: &CaseOut) -> (Vec<[u64; 3]>, Vec<usize>, u64) {
                 out.push([11, t, j]);
             }
             H_WOKEN => {
+                let Some(j) = sent.remove(&e.thread) else { continue };
                 let t = th_w.get(&e.thread).copied().unwrap_or(NOBODY);
-                out.push([11, t, jid.get(&e.a).copied().unwrap_or(NOBODY)]);
+                out.push([11, t, j]);
             }
             K_WORKER_EXIT => {
                 if let Some(&t) = th_w.get(&e.thread) {
